@@ -380,7 +380,7 @@ Proof.
 Qed.
 Example lift_example_second_run :
   let K := toy_codemod 1 PLibcst DNone in
-  let fs1 := final_fs (toy_run run_tables_v (toy_cfg false [[97%N]; [98%N]]) [K] [([97%N], [1%N]); ([98%N], [5%N])] []) in
+  let fs1 := final_fs (toy_run tables_pinned (toy_cfg false [[97%N]; [98%N]]) [K] [([97%N], [1%N]); ([98%N], [5%N])] []) in
   lookup fs1 [97%N] = Some [2%N] /\
-  final_fs (toy_run run_tables_v (toy_cfg false [[97%N]; [98%N]]) [K] fs1 []) = fs1.
+  final_fs (toy_run tables_pinned (toy_cfg false [[97%N]; [98%N]]) [K] fs1 []) = fs1.
 Proof. vm_compute. split; reflexivity. Qed.
